@@ -244,7 +244,7 @@ func partB(rep *ev.Reporter, s *srvT) int64 {
 					continue
 				}
 				p := univ.SeedPlan{Seed: 7, MaxList: 2}
-				want := ref.Execute(s.env, &p, doc, "", vars, ref.Options{Omittable: omit})
+				want := ref.Execute(s.env, &p, doc, "", diffrun.CopyJSON(vars), ref.Options{Omittable: omit})
 				refInvalid := want.RequestError != ""
 				for _, e := range want.Errors {
 					if e.Class == "coercion" {
@@ -257,7 +257,7 @@ func partB(rep *ev.Reporter, s *srvT) int64 {
 					continue
 				}
 				run := &univ.Run{Plan: &p}
-				got := s.srv.Run(context.Background(), run, query, "", vars, 30*time.Second)
+				got := s.srv.Run(context.Background(), run, query, "", diffrun.CopyJSON(vars), 30*time.Second)
 				evals++
 				formName := []string{"literal", "variable"}[form]
 				cid := map[string]any{"probe": s.name, "query": query, "variables": vars, "position": pos.resolverKey + "." + pos.arg, "invalid": inv.desc, "form": formName}
@@ -375,7 +375,7 @@ func partC(rep *ev.Reporter, s *srvT) int64 {
 					target = "nums." + f
 				}
 				run := &univ.Run{Plan: &p}
-				got := s.srv.Run(context.Background(), run, query, "", vars, 30*time.Second)
+				got := s.srv.Run(context.Background(), run, query, "", diffrun.CopyJSON(vars), 30*time.Second)
 				evals++
 				cid := map[string]any{"probe": s.name, "query": query, "variables": vars, "argument": target, "input": in}
 				rep.Distinct("boundary_cases", fmt.Sprintf("%s|%s|%s|%d", s.name, na.arg, in, form))
